@@ -141,6 +141,26 @@ pub fn decode_all(shape: &Shape, input: &[u8]) -> Result<Vec<Decoded>, String> {
         remainder_ok: true,
         log,
     });
+    // from_io with a scratch buffer of exactly the size this message routes through it
+    if let Ok(d) = crate::refcodec::ref_decode(shape, input) {
+        let exact = scratch_need(shape, &d.value);
+        let mut scratch = vec![0u8; exact];
+        let (r, log) = with_shape(shape, || {
+            no_panic(|| {
+                let rd: &[u8] = input;
+                postcard::from_io::<Dyn, _>((rd, &mut scratch[..])).map(|(d, (rest, s))| (d, rest.len(), s.len()))
+            })
+        });
+        let r = r?;
+        let consumed = r.as_ref().ok().map(|(_, rest, _)| input.len() - rest);
+        out.push(Decoded {
+            name: "from_io(exact scratch)",
+            result: r.map(|(d, _, _)| d.0),
+            consumed,
+            remainder_ok: true,
+            log,
+        });
+    }
     // from_eio
     let mut scratch = vec![0u8; input.len() + 16];
     let (r, log) = with_shape(shape, || {
@@ -159,4 +179,38 @@ pub fn decode_all(shape: &Shape, input: &[u8]) -> Result<Vec<Decoded>, String> {
         log,
     });
     Ok(out)
+}
+
+/// bytes of `value` that the reader-based decoder routes through the scratch buffer: str / bytes
+/// payloads, floats, chars
+pub fn scratch_need(shape: &Shape, value: &Value) -> usize {
+    use crate::dynshape::VKind;
+    fn walk(s: &Shape, v: &Value, acc: &mut usize) {
+        match (s, v) {
+            (Shape::F32, _) => *acc += 4,
+            (Shape::F64, _) => *acc += 8,
+            (Shape::Char, Value::Char(c)) => *acc += c.len_utf8(),
+            (Shape::Str | Shape::String, Value::Str(x)) => *acc += x.len(),
+            (Shape::Bytes | Shape::ByteBuf, Value::Bytes(x)) => *acc += x.len(),
+            (Shape::Option(i), Value::Some(x)) => walk(i, x, acc),
+            (Shape::Newtype(_, i), Value::Newtype(x)) => walk(i, x, acc),
+            (Shape::Seq(i), Value::List(xs)) => xs.iter().for_each(|x| walk(i, x, acc)),
+            (Shape::Tuple(ss) | Shape::TupleStruct(_, ss), Value::List(xs)) => ss.iter().zip(xs).for_each(|(s, x)| walk(s, x, acc)),
+            (Shape::Struct(_, fs), Value::List(xs)) => fs.iter().zip(xs).for_each(|((_, s), x)| walk(s, x, acc)),
+            (Shape::Map(k, vv), Value::Map(ps)) => ps.iter().for_each(|(a, b)| {
+                walk(k, a, acc);
+                walk(vv, b, acc)
+            }),
+            (Shape::Enum(_, vs), Value::Variant(pos, p)) => match (&vs[*pos].kind, &**p) {
+                (VKind::Newtype(i), x) => walk(i, x, acc),
+                (VKind::Tuple(ss), Value::List(xs)) => ss.iter().zip(xs).for_each(|(s, x)| walk(s, x, acc)),
+                (VKind::Struct(fs), Value::List(xs)) => fs.iter().zip(xs).for_each(|((_, s), x)| walk(s, x, acc)),
+                _ => {}
+            },
+            _ => {}
+        }
+    }
+    let mut acc = 0;
+    walk(shape, value, &mut acc);
+    acc
 }
